@@ -15,7 +15,7 @@ import (
 func TestC05Stateful(t *testing.T) {
 	theT = t
 	col := ev.New("C05", "stateful",
-		"rapid state machine: committee (= Alphabet) sizes 1/4/7, in half of the larger ones with fewer consensus nodes than committee members (2 of 4, 4 of 7); ContainerFee and ContainerAliasFee changed through Netmap setConfig between puts (0,1,7,12345,10^8); before each put the owner's NEOFS balance is set to need-1 / need / need+1 / 0 / large where need=(fee[+aliasFee])*N; owners are three users and the standard account of a drawn Alphabet node (which pays one share to itself: net -need+fee); named and unnamed, fresh and repeated puts, names reused after the deletion of their previous container (the domain stays registered); oracle: success iff balance >= need; on success owner -need, every Alphabet standard account +fee per node, nobody else changes, supply unchanged, N TransferX with details 0x10||cid, container stored; on failure the full snapshot of all contracts is unchanged; non-trivial = a put at need-1 or need with fee>0 and N>1",
+		"rapid state machine: committee (= Alphabet) sizes 1/4/7, in half of the larger ones with fewer consensus nodes than committee members (2 of 4, 4 of 7); ContainerFee and ContainerAliasFee changed through Netmap setConfig between puts (0,1,7,12345,10^8), epoch ticks (which reach the Container contract as a subscriber) before or after the changes; before each put the owner's NEOFS balance is set to need-1 / need / need+1 / 0 / large where need=(fee[+aliasFee])*N; owners are three users and the standard account of a drawn Alphabet node (which pays one share to itself: net -need+fee); named and unnamed, fresh and repeated puts, names reused after the deletion of their previous container (the domain stays registered); oracle: success iff balance >= need; on success owner -need, every Alphabet standard account +fee per node, nobody else changes, supply unchanged, N TransferX with details 0x10||cid, container stored; on failure the full snapshot of all contracts is unchanged; non-trivial = a put at need-1 or need with fee>0 and N>1",
 		"every other reason for a put to fail is excluded by construction (fresh or live-unnamed blob, valid free name, Alphabet witness)", "fee settings are non-negative")
 	runRapid(t, col, func(rt *rapid.T, h *ev.History) {
 		n := rapid.SampledFrom([]int{1, 4, 4, 7}).Draw(rt, "n")
@@ -42,7 +42,22 @@ func TestC05Stateful(t *testing.T) {
 		var liveNamed []*cntBlob
 		var freeNames []string // names whose domain exists in NNS but holds no container any more
 		steps := rapid.IntRange(1, 14).Draw(rt, "steps")
+		epoch := int64(0)
+		tick := func() {
+			// an epoch tick reaches the Container contract (a subscriber of Netmap): whatever it does there, the fee of the
+			// next put is the one configured in Netmap at the moment of the put
+			epoch++
+			if o := w.c.Invoke(w.alpha, w.nm, "newEpoch", epoch); !o.Halt {
+				fail("C05 harness: newEpoch(%d): %s", epoch, o)
+			}
+			h.Op("newEpoch(%d)", epoch)
+			h.Mark("epoch-tick-in-history")
+		}
 		for s := 0; s < steps; s++ {
+			tickAt := rapid.SampledFrom([]string{"", "", "", "before-fee-change", "before-fee-change", "after-fee-change"}).Draw(rt, "tick")
+			if tickAt == "before-fee-change" {
+				tick()
+			}
 			if rapid.IntRange(0, 3).Draw(rt, "changeFee") == 0 {
 				key := rapid.SampledFrom([]string{"ContainerFee", "ContainerAliasFee"}).Draw(rt, "feeKey")
 				val := rapid.SampledFrom(feeVals).Draw(rt, "feeVal")
@@ -57,6 +72,9 @@ func TestC05Stateful(t *testing.T) {
 				}
 				h.Op("setConfig %s=%d", key, val)
 				h.Mark("fee-changed")
+			}
+			if tickAt == "after-fee-change" {
+				tick()
 			}
 			// sometimes delete a named container first: its domain stays registered and the name becomes reusable
 			if len(liveNamed) > 0 && rapid.IntRange(0, 2).Draw(rt, "deleteNamed") == 0 {
